@@ -126,7 +126,10 @@ func ruleVerifyRound() *Rule {
 			var stampFld *types.Var
 			// ---- STAMP
 			{
-				type st struct{ fld *types.Var; val, pos string }
+				type st struct {
+					fld      *types.Var
+					val, pos string
+				}
 				var stamps []st
 				p.discover(submit, func(a *Analysis, f *Frame, in ssa.Instruction) {
 					if f.Parent != nil {
